@@ -12,15 +12,17 @@ def run(c):
     parts = ["all"] if c.quick else ["x509", "sha256", "extern", "sha1", "unknown"]
     base = 0
     total_cases = 0
+    samples = []
     for part in parts:
-        lines = E.enumerate_cases(c, "NearInit", "q" if c.quick else "t", part)
-        total_cases += len(lines)
-        results, deaths, items = E.execute(c, lines, stats, base)
+        results, deaths, lookup, n = E.stream_cases(c, "NearInit", "q" if c.quick else "t", part, stats, base)
+        items = E.LookupItems(lookup)
         E.report_disagreements(c, results, deaths, items)
-        for l in lines[:1] + lines[len(lines) // 2:len(lines) // 2 + 1]:
+        samples += [lookup(base), lookup(base + n // 2)]
+        total_cases += n
+        base += n
+    for l in samples[:4]:
+        if l:
             c.sample(json.loads(l))
-        base += len(lines)
-        del lines, items
     if stats.mismatch:
         raise vf.FrameworkError("abstraction cross-check failed: %s" % stats.mismatch[:2])
     if stats.n != total_cases - 0 and not c.violations:
